@@ -326,6 +326,7 @@ func runNames(in *bufio.Scanner, w *bufio.Writer) {
 	caseNo := 0
 	var a, b *CPTVFileRecorder
 	var dir string
+	nfull := 0
 	for in.Scan() {
 		line := in.Text()
 		fmt.Fprintln(w, ">", line)
@@ -343,6 +344,54 @@ func runNames(in *bufio.Scanner, w *bufio.Writer) {
 				Motion: goconfig.DefaultThermalMotion("lepton3")}
 			a = NewCPTVFileRecorder(conf, cam, "flir", "lepton3", 123, "1.2.3")
 			b = NewCPTVFileRecorder(conf, cam, "flir", "lepton3", 123, "1.2.3")
+		case "full": // full <k>: the continuous recorder starts on a file system with <= 30 % free; exactly k old files must go
+			k := vAtoi(f[1])
+			nfull++
+			mnt := filepath.Join(work, fmt.Sprintf("names_full_%d_%d", caseNo, nfull))
+			os.MkdirAll(mnt, 0755)
+			if err := syscall.Mount("tmpfs", mnt, "tmpfs", 0, "size=10m"); err != nil {
+				fmt.Fprintln(w, "< full skipped") // no permission to mount in this environment: nothing is claimed
+				continue
+			}
+			func() {
+				defer syscall.Unmount(mnt, syscall.MNT_DETACH) // lazy: go-cptv leaks a descriptor of every file it created until the next GC
+				conf := &Config{OutputDir: mnt, DeviceName: "verif", DeviceID: 7, MinDiskSpace: 0,
+					Motion: goconfig.DefaultThermalMotion("lepton3")}
+				rec := NewCPTVFileRecorder(conf, cam, "flir", "lepton3", 123, "1.2.3")
+				rec.SetAsConstantRecorder()
+				cdir := filepath.Join(mnt, "constant-recordings")
+				var fs syscall.Statfs_t
+				syscall.Statfs(mnt, &fs)
+				total := int64(fs.Blocks) * int64(fs.Bsize)
+				old := total / 20 // every old continuous recording takes 5 % of the file system
+				for i := 0; i < k+2; i++ {
+					os.WriteFile(filepath.Join(cdir, fmt.Sprintf("20200101.00000%d.000.cptv", i)), make([]byte, old), 0644)
+				}
+				// a motion recording in the main directory fills the rest up to (27.5 - 5(k-1)) % free: deleting k old
+				// continuous recordings brings the free space to 32.5 %, deleting k-1 only to 27.5 %
+				syscall.Statfs(mnt, &fs)
+				free := int64(fs.Bavail) * int64(fs.Bsize)
+				target := total * (300 - 50*int64(k) + 25) / 1000
+				mainFile := filepath.Join(mnt, "20190101.000000.000.cptv")
+				os.WriteFile(mainFile, make([]byte, free-target), 0644)
+				var err error
+				vGuard(w, "full", func() {
+					err = rec.StartRecording(cptvframe.NewFrame(cam), 0)
+					if err == nil {
+						rec.WriteFrame(cptvframe.NewFrame(cam))
+						rec.StopRecording()
+					}
+				})
+				left := 0
+				ents, _ := os.ReadDir(cdir)
+				for _, e := range ents {
+					if strings.HasPrefix(e.Name(), "20200101.") {
+						left++
+					}
+				}
+				_, merr := os.Stat(mainFile)
+				fmt.Fprintf(w, "< full k=%d ret=%s oldleft=%d mainkept=%v\n", k, vOk(err), left, merr == nil)
+			}()
 		case "ss": // ss <frames for the first recorder> <frames for the second>
 			bg := cptvframe.NewFrame(cam)
 			vGuard(w, "pair", func() {
@@ -406,5 +455,6 @@ func genNames(r *vRng, tier string, w *bufio.Writer) {
 		for k := 0; k < 8; k++ {
 			fmt.Fprintf(w, "ss %d %d\n", r.pick(1, 3, 21), r.pick(1, 2, 21))
 		}
+		fmt.Fprintf(w, "full %d\n", 1+id%3)
 	}
 }
